@@ -278,6 +278,13 @@ def run(ctx):
         ctx.violate("C17:key-not-from-ConcatKey:%s" % u["pos"].rsplit(":", 1)[0] + ":" + u["func"],
                     "store access whose key is not built by utils.ConcatKey: %s in %s (%s)" % (u["call"][:200], u["pos"], u["why"]),
                     {"kind": "obligation", "site": u, "theorem": "Poly.Props.C17.all_store_keys_from_concatKey"}, found_input=False)
+    for u in ks.get("ambiguous_fields") or []:
+        ctx.violate("C17:field-not-raw:%s:%s" % (u["pos"].rsplit(":", 1)[0], u["func"]),
+                    "a storage-key field is not one value written raw: %s in %s (%s): different parameter values can give "
+                    "the same field bytes (e.g. x and hash(x))" % (u["why"], u["func"], u["pos"]),
+                    {"kind": "obligation", "site": u, "theorem": "Poly.Props.C17.fields_written_raw",
+                     "hint": "stream ccm (checks C20/C17 key log) drives the done-tx records with ids x, sha256(x), x[:32], x||00"},
+                    found_input=False)
     for d in ks.get("direct_store_imports") or []:
         ctx.violate("C17:direct-store-import:%s" % d.split(" ")[0].rsplit(":", 1)[0],
                     "a package under native/ reaches a ledger store package directly: %s" % d,
@@ -313,6 +320,10 @@ def run(ctx):
                     r2 = ctx.correspondence("keylog-" + fam, hbin, [fam], None)
                     if r2.get("harness_rc") != 0:
                         continue
+                    # key-level oracles of those streams (e.g. the done record of (chain, id) must be doneTx ‖ chain ‖ id)
+                    r2["viol"] = [v for v in r2["viol"] if v["key"].startswith("C17:")]
+                    r2["mismatches"] = []
+                    ctx.judge(r2)
             finally:
                 vcheck.GOENV.pop("VERIF_KEYLOG", None)
                 vcheck.GOENV.pop("VERIF_SMALL", None)
